@@ -17,6 +17,14 @@ CHECKS = {
                       'array lengths and per-group totals < 2^28, each declaration listed once, type registry well-formed. Rewrites N1 (or-pattern+guard split), N3 (mut self), '
                       'N4 (for-loop desugaring) are applied to the extracted text and printed in evidence.',
     },
+    'C10': {
+        'engine': 'V',
+        'technique': 'Verus contracts on the lexer digit accumulators against positional-notation spec functions',
+        'level_text': 'Unbounded deductive proof (Verus) on the verbatim text of digit/digits, digit_hex/digits_hex, digit_octal/digits_octal: the maximal digit run is consumed, '
+                      'the result is exactly the positional value of that run when it fits in 64 bits, and the literal is rejected otherwise; no overflow is reachable.',
+        'level_note': 'Partial: integer accumulation only so far. Floating literals (nearest double) are not decidable by this family (Verus treats f64 as uninterpreted, '
+                      'CBMC cannot decide correct rounding); token tiling and the location table are being added.',
+    },
     'C11': {
         'engine': 'V',
         'technique': 'Verus contracts on ConditionChain (abstraction to C (now,taken) levels) + lemmas',
